@@ -176,7 +176,11 @@ func CheckKey(k key.Key) error {
 			}
 
 		case iana.KeyParameterKeyOps: // optional
-			for _, op := range k.Ops() {
+			ops := k.Ops()
+			if ops == nil {
+				return fmt.Errorf(`cose/key/ecdh: CheckKey: invalid parameter key_ops`)
+			}
+			for _, op := range ops {
 				switch op {
 				case iana.KeyOperationDeriveKey, iana.KeyOperationDeriveBits:
 					if !hasD {
